@@ -69,10 +69,10 @@ CHECKS = {
             {"pkg": "Havoc/pkg/socks", "entries": ["H_c15_greeting", "H_c15_reply"]},
             {"pkg": "Havoc/pkg/socks", "entries": ["H_c15_request"], "shards": 13},
             {"pkg": "Havoc/pkg/agent", "with": AGENT_WITH, "entries": ["H_c15_proxy"], "shards": 5},
-            {"pkg": "Havoc/pkg/agent", "with": AGENT_WITH, "entries": ["H_c15_relay", "H_c15_socks_admin", "H_c15_reader"]},
+            {"pkg": "Havoc/pkg/agent", "with": AGENT_WITH, "entries": ["H_c15_relay", "H_c15_socks_admin", "H_c15_reader", "H_c15_portfwd"]},
             {"pkg": "Havoc/pkg/agent", "with": AGENT_WITH, "entries": ["H_c15_tables_race"], "race": True},
         ],
-        "bounds": "greeting: every stream of 0..6 bytes; request: every stream of 0..12 bytes; both under every segmentation into chunks of 1, 2 or all remaining bytes; reply builder: IPv4/IPv6/domain of length 0,1,2,127,128,255; proxy handler: greeting 0..4 bytes then request 0..10 bytes (client waits for the method selection); relay: READ/CLOSE/CONNECT callbacks for an arbitrary socket id against a table of two clients, data 0..3 bytes; operator socks list/kill/clear with 0..3 proxies of 0..2 clients each; reader goroutine of one connected client run to completion over 1..3 segments of 1..3 arbitrary bytes followed by a connection reset; two-thread table harness (H_c15_tables_race) under the bounded scheduler (<=2 voluntary switches).",
+        "bounds": "greeting: every stream of 0..6 bytes; request: every stream of 0..12 bytes; both under every segmentation into chunks of 1, 2 or all remaining bytes; reply builder: IPv4/IPv6/domain of length 0,1,2,127,128,255; proxy handler: greeting 0..4 bytes then request 0..10 bytes (client waits for the method selection); relay: READ/CLOSE/CONNECT callbacks for an arbitrary socket id against a table of two clients, data 0..3 bytes; operator socks list/kill/clear with 0..3 proxies of 0..2 clients each; reverse port-forward callbacks OPEN / READ (client socket, data 0..3 bytes, open / not yet open / unknown id, dial may fail) / REMOVE for an arbitrary socket id against a table of two forwards; reader goroutine of one connected client run to completion over 1..3 segments of 1..3 arbitrary bytes followed by a connection reset; two-thread table harness (H_c15_tables_race) under the bounded scheduler (<=2 voluntary switches).",
         "outside": "real TCP and the listener goroutine, the reader goroutine interleaved with other threads, io.EOF busy loop of the reader, io.Copy in PortFwdRead, pipelined greeting+request, more than two threads",
         "min_completed": 3,
     },
